@@ -341,33 +341,57 @@ func ruleM7(c *Ctx, verifierOnly bool) {
 			return
 		}
 		c.Saw(core.FnName(fn))
-		var forms []lin
 		sym := ssa.Value(paramNamed(fn, param))
-		if sym == nil {
-			for _, cl := range countedLoops(fn) {
-				sym = cl.phi
-			}
-		}
-		core.AllInstrs(fn, func(i ssa.Instruction) {
-			ia, ok := i.(*ssa.IndexAddr)
-			if !ok || !strings.HasSuffix(core.PathOf(ia.X), "preComp."+table+")") {
-				return
-			}
-			idx := ia.Index
-			if param == "" {
-				if cl := loopOf(countedLoops(fn), ia.Block()); cl != nil {
+		var formsOf func(fn *ssa.Function, sym ssa.Value, byParam bool, depth int) []lin
+		formsOf = func(fn *ssa.Function, sym ssa.Value, byParam bool, depth int) []lin {
+			var forms []lin
+			if sym == nil {
+				for _, cl := range countedLoops(fn) {
 					sym = cl.phi
 				}
 			}
-			// a phi merging the two halves (index += midpoint under a condition)
-			if phi, isPhi := core.StripConv(idx).(*ssa.Phi); isPhi && len(countedLoops(fn)) == 0 {
-				for _, e := range phi.Edges {
-					forms = append(forms, linOf(e, sym, half(table)))
+			core.AllInstrs(fn, func(i ssa.Instruction) {
+				switch x := i.(type) {
+				case *ssa.IndexAddr:
+					if !strings.HasSuffix(core.PathOf(x.X), "preComp."+table+")") {
+						return
+					}
+					idx := x.Index
+					if !byParam {
+						if cl := loopOf(countedLoops(fn), x.Block()); cl != nil {
+							sym = cl.phi
+						}
+					}
+					// a phi merging the two halves (index += midpoint under a condition)
+					if phi, isPhi := core.StripConv(idx).(*ssa.Phi); isPhi && len(countedLoops(fn)) == 0 {
+						for _, e := range phi.Edges {
+							forms = append(forms, linOf(e, sym, half(table)))
+						}
+						return
+					}
+					forms = append(forms, linOf(idx, sym, half(table)))
+				case *ssa.Call:
+					// a lookup delegated to another accessor of the same tables
+					callee := core.Callee(x.Common())
+					if depth >= 2 || callee == nil || !core.IsMethod(callee, "/ipa", "PrecomputedWeights", callee.Name()) || len(callee.Blocks) == 0 || len(x.Call.Args) == 0 || x.Call.Args[0] != ssa.Value(fn.Params[0]) {
+						return
+					}
+					for k := 1; k < len(x.Call.Args) && k < len(callee.Params); k++ {
+						arg := linOf(x.Call.Args[k], sym, half(table))
+						if !arg.ok {
+							continue
+						}
+						for _, f := range formsOf(callee, callee.Params[k], true, depth+1) {
+							if f.ok {
+								forms = append(forms, lin{f.a * arg.a, f.a*arg.b + f.b, true})
+							}
+						}
+					}
 				}
-				return
-			}
-			forms = append(forms, linOf(idx, sym, half(table)))
-		})
+			})
+			return forms
+		}
+		forms := formsOf(fn, sym, param != "", 0)
 		found := false
 		for _, f := range forms {
 			if f == want {
